@@ -391,3 +391,29 @@ def resolve_upvar(parent, closure, name, through=DEFAULT_THROUGH):
             if ix < len(st['rv']['fields']):
                 out += provenance(parent, st['rv']['fields'][ix], i, k, through=through)
     return out
+
+
+def value_sites(body, variant, copies=True):
+    """blocks that may give the return place a value of `variant` (Some / Ok / None / Err): aggregates of that variant
+    written to `_0`, and definitions of `_0` whose variant is not visible here - a call returning straight into `_0`
+    (`self.items.get(ix)` instead of `Some(self.items.get(ix)?)`) or a copy of another local - except the residual
+    conversion of `?`, which can only produce None / Err"""
+    out = []
+    for i, k, st in body.stmts():
+        if st['k'] == 'assign' and st['lhs'] == [0, []]:
+            rv = st['rv']
+            if rv['k'] == 'agg':
+                if rv.get('variant') == variant:
+                    out.append(i)
+            elif copies and rv['k'] == 'use' and rv['op'][0] in ('cp', 'mv'):
+                rs = provenance(body, rv['op'], i, k, through=None)
+                if not rs or any(not (r.kind == 'agg' and r.extra.get('variant') not in (None, variant)) and
+                                 not (r.kind == 'call' and r.call.is_(r'from_residual$') and variant in ('Some', 'Ok')) for r in rs):
+                    out.append(i)
+    for c in body.calls():
+        if c.dest == [0, []]:
+            if c.is_(r'from_residual$'):
+                if variant in ('None', 'Err'): out.append(c.bb)
+            else:
+                out.append(c.bb)
+    return sorted(set(out))
